@@ -187,7 +187,8 @@ pub fn object_keys(
     if is_proxy(&obj_ref) {
         // Call ownKeys trap and filter for enumerable string keys
         let Guarded {
-            value: keys_result, ..
+            value: keys_result,
+            guard: _keys_guard,
         } = proxy_own_keys(interp, obj_ref)?;
         // Filter for enumerable string keys only (not symbols)
         if let JsValue::Object(keys_arr) = keys_result {
